@@ -1,5 +1,6 @@
 import ChfVerif.Lemmas.Convert
 import ChfVerif.Lemmas.ChargingSids
+import ChfVerif.Lemmas.ChargingRecords
 /-
   C02 — reported usage is recorded exactly once, in the right session's CDR; the opening timestamp
   is the TS 32.298 BCD form of the creation instant in every time zone.
@@ -181,5 +182,22 @@ theorem C02_release_cause (guard : SplitGuard) (s : State) (sid : Bytes) (r : Re
     · simp [setRecord, List.getD_eq_getElem?_getD, hi, appendUsage]
   obtain ⟨ue', h1, h2, h3, h4⟩ := key
   exact ⟨ue', by rw [h1, ← hsupi, ← h2]; exact findUe_putUe_same _ _, h3, h4⟩
+
+
+/-- C02 (exactly once, every history): whatever the history — any number of subscribers and sessions,
+    interleaved creates, updates, releases and recharges, rejected requests, record splits decided by any size
+    guard — the usage recorded in a subscriber's records is, as a multiset, exactly the usage its accepted
+    requests reported: nothing is lost, nothing is recorded twice, nothing of another subscriber creeps in. -/
+theorem C02_exactly_once (guard : SplitGuard) (supi : Bytes) (ops : List Op)
+    (accts : Abmf.Store) (tariffs : List Rating.Tariff) :
+    List.Perm (usageOf (run guard { accts := accts, tariffs := tariffs } ops) supi)
+      (contributedRun guard supi { accts := accts, tariffs := tariffs } ops) := by
+  have h := (usage_run guard supi ops { accts := accts, tariffs := tariffs } (allIdx_init accts tariffs)).1
+  simpa [usageOf, findUe] using h
+
+/-- … and every session reference keeps designating an existing record -/
+theorem C02_references_valid (guard : SplitGuard) (ops : List Op) (accts : Abmf.Store) (tariffs : List Rating.Tariff) :
+    AllIdxOK (run guard { accts := accts, tariffs := tariffs } ops) :=
+  (usage_run guard [] ops { accts := accts, tariffs := tariffs } (allIdx_init accts tariffs)).2
 
 end Chf.Props.C02
